@@ -21,7 +21,7 @@ for p in props:
     checks.append({
         "property_id": pid, "quick_cmd": "./check %s --tier quick" % pid, "thorough_cmd": "./check %s --tier thorough" % pid,
         "evidence_file": "/verif/evidence/%s.json" % pid, "replay_cmd_template": "./check --replay {path}", "engine": "vsa",
-        "level_claimed": {"category": "other", "text": c["level"], "design_ref": "DESIGN.md section 5 %s" % pid},
+        "level_claimed": {"category": "other", "text": c["level"], "design_ref": "DESIGN.md section 5 %s and section 11" % pid},
         "level_note": c["note"], "technique": c["technique"]})
 man = {
     "version": 1,
@@ -32,10 +32,16 @@ man = {
     "engines": [{"name": "vsa", "path": "/verif/vsa", "serves_properties": served,
                  "kind_free_text": "repository-specific static analysis over Python ast: program model (classes, MRO, registries), FORM "
                                    "(rational-function normal form + identity), SHAPE (interval shapes over the finite domain of order relations), "
-                                   "symbolic def-use folding of straight-line bodies, structured dataflow/provenance, effect and library-API rules"}],
+                                   "symbolic def-use folding with an event log (loops unrolled twice, helpers unknown to the reference inlined), propositional "
+                                   "equivalence of conditions by truth table (boolq), case evaluation of functions with a parameter fixed, structured "
+                                   "dataflow/provenance, effect and library-API rules; function-level comparison with a verified reference tree "
+                                   "(/verif/reference) by symbolic summaries, so that refactored-but-equivalent functions are analysed in reference form "
+                                   "(DESIGN.md section 11.6)"}],
     "checks": checks,
     "notes": "Static analysis only (DESIGN.md). Exit 0 = every obligation discharged (KNOWN-FINDING lines for recorded defects); 1 = VIOLATION; "
-             "2 = ANALYSIS-ERROR (vanished anchor / unrecognised shape / instance floor not met). Thorough tier adds the in-memory sensitivity audit.",
+             "2 = ANALYSIS-ERROR (vanished anchor / unrecognised shape / instance floor not met). Thorough tier adds the in-memory sensitivity audit "
+             "(every mutant goes through the same pipeline as a real change, reference comparison included). Self-tests under /verif/selftest: "
+             "run_seeded.py (97 seeded breaking changes), run_benign.py (57 behaviour-preserving refactorings), try_equiv.py, equiv_auto.py, global_audit.py.",
     "not_applicable": na,
 }
 json.dump(man, open("/verif/MANIFEST.json", "w"), indent=1)
